@@ -50,6 +50,29 @@ while True:
     x = f(1, 2)
     g()
 ''',
+    "setup-control": '''from Reduino.Actuators import Led
+from Reduino.Utils import sleep
+led = Led(13)
+x = 3
+if (x > 2):
+    led.on()
+elif (x > 1):
+    led.off()
+else:
+    led.toggle()
+while (x > 5):
+    x = x - 1
+for i in range(3):
+    sleep(100)
+try:
+    x += 1
+except Exception:
+    pass
+def f(v):
+    return v
+while True:
+    x = f(x)
+''',
     "data": '''from Reduino.Actuators import Led
 from Reduino.Communication import SerialMonitor
 mon = SerialMonitor(9600)
